@@ -1924,26 +1924,27 @@ class Scene:
 
         for aircraft_name in aircraft_names:
             derivs[aircraft_name] = {}
-            # Get current aerodynamic state
-            alpha_0, beta_0,_ = self._airplanes[aircraft_name].get_aerodynamic_state()
+            # Get current aerodynamic state (relative to the local wind)
+            v_wind = self._get_wind(self._airplanes[aircraft_name].p_bar)
+            alpha_0, beta_0,_ = self._airplanes[aircraft_name].get_aerodynamic_state(v_wind=v_wind)
 
             # Perturb forward in alpha
-            self._airplanes[aircraft_name].set_aerodynamic_state(alpha=alpha_0+dtheta)
+            self._airplanes[aircraft_name].set_aerodynamic_state(alpha=alpha_0+dtheta, v_wind=v_wind)
             self.solve_forces(dimensional=False, **kwargs)
             FM_dalpha_fwd = self._FM
 
             # Perturb backward in alpha
-            self._airplanes[aircraft_name].set_aerodynamic_state(alpha=alpha_0-dtheta)
+            self._airplanes[aircraft_name].set_aerodynamic_state(alpha=alpha_0-dtheta, v_wind=v_wind)
             self.solve_forces(dimensional=False, **kwargs)
             FM_dalpha_bwd = self._FM
 
             # Perturb forward in beta
-            self._airplanes[aircraft_name].set_aerodynamic_state(alpha=alpha_0, beta=beta_0+dtheta) # We have to reset alpha on this one
+            self._airplanes[aircraft_name].set_aerodynamic_state(alpha=alpha_0, beta=beta_0+dtheta, v_wind=v_wind) # We have to reset alpha on this one
             self.solve_forces(dimensional=False, **kwargs)
             FM_dbeta_fwd = self._FM
 
             # Perturb backward in beta
-            self._airplanes[aircraft_name].set_aerodynamic_state(beta=beta_0-dtheta)
+            self._airplanes[aircraft_name].set_aerodynamic_state(beta=beta_0-dtheta, v_wind=v_wind)
             self.solve_forces(dimensional=False, **kwargs)
             FM_dbeta_bwd = self._FM
 
@@ -1998,7 +1999,7 @@ class Scene:
                 derivs[aircraft_name]["%_static_margin"] = -derivs[aircraft_name]["Cm_w,a"]/derivs[aircraft_name]["CL,a"]*100.0
         
             # Reset aerodynamic state
-            self._airplanes[aircraft_name].set_aerodynamic_state(alpha=alpha_0, beta=beta_0)
+            self._airplanes[aircraft_name].set_aerodynamic_state(alpha=alpha_0, beta=beta_0, v_wind=v_wind)
             self._solved = False
 
         return derivs
@@ -2050,8 +2051,8 @@ class Scene:
             derivs[aircraft_name] = {}
             aircraft_object = self._airplanes[aircraft_name]
 
-            # Get current aerodynamic state
-            _,_,vel_0 = aircraft_object.get_aerodynamic_state()
+            # Get current aerodynamic state (relative to the local wind)
+            _,_,vel_0 = aircraft_object.get_aerodynamic_state(v_wind=self._get_wind(aircraft_object.p_bar))
 
             # Determine current angular rates and the frame they were specified in
             omega_0 = aircraft_object.w
@@ -2578,15 +2579,15 @@ class Scene:
             # Calculate alpha derivatives
 
             # Get current aerodynamic state
-            alpha_0, beta_0,_ = airplane_object.get_aerodynamic_state()
+            alpha_0, beta_0,_ = airplane_object.get_aerodynamic_state(v_wind=v_wind)
 
             # Perturb forward in alpha
-            airplane_object.set_aerodynamic_state(alpha=alpha_0+dtheta)
+            airplane_object.set_aerodynamic_state(alpha=alpha_0+dtheta, v_wind=v_wind)
             self.solve_forces(dimensional=False, wind_frame=True, body_frame=False, stab_frame=False)
             FM_dalpha_fwd = self._FM
 
             # Perturb backward in alpha
-            airplane_object.set_aerodynamic_state(alpha=alpha_0-dtheta)
+            airplane_object.set_aerodynamic_state(alpha=alpha_0-dtheta, v_wind=v_wind)
             self.solve_forces(dimensional=False, wind_frame=True, body_frame=False, stab_frame=False)
             FM_dalpha_bwd = self._FM
 
@@ -2595,7 +2596,7 @@ class Scene:
             Cm_a = (FM_dalpha_fwd[aircraft_name]["total"]["Cm_w"]-FM_dalpha_bwd[aircraft_name]["total"]["Cm_w"])/diff
 
             # Reset aerodynamic state
-            self._airplanes[aircraft_name].set_aerodynamic_state(alpha=alpha_0, beta=beta_0)
+            self._airplanes[aircraft_name].set_aerodynamic_state(alpha=alpha_0, beta=beta_0, v_wind=v_wind)
             self._solved = False
 
             # Determine Jacobian
@@ -2610,7 +2611,7 @@ class Scene:
 
             # Update angle of attack
             alpha1 = alpha0 + np.degrees(delta[0])*relax
-            airplane_object.set_aerodynamic_state(alpha=alpha1)
+            airplane_object.set_aerodynamic_state(alpha=alpha1, v_wind=v_wind)
 
             # Update control
             delta_flap1 = delta_flap0 + np.degrees(delta[1])*relax
@@ -3968,7 +3969,7 @@ class Scene:
         relax = kwargs.get("relaxation", 1.0)
 
         # Get residuals
-        airplane_object.set_aerodynamic_state(alpha=alpha)
+        airplane_object.set_aerodynamic_state(alpha=alpha, v_wind=v_wind)
         airplane_object.set_control_state(controls)
         CL = self.solve_forces(dimensional=False)[aircraft_name]["total"]["CL"]
         res = abs(CL-CL_target)
@@ -3980,11 +3981,11 @@ class Scene:
         while res>1e-10:
 
             # Perturb forward in alpha
-            airplane_object.set_aerodynamic_state(alpha=alpha+0.005)
+            airplane_object.set_aerodynamic_state(alpha=alpha+0.005, v_wind=v_wind)
             CL_fwd = self.solve_forces(dimensional=False)[aircraft_name]["total"]["CL"]
 
             # Perturb backward in alpha
-            airplane_object.set_aerodynamic_state(alpha=alpha-0.005)
+            airplane_object.set_aerodynamic_state(alpha=alpha-0.005, v_wind=v_wind)
             CL_bwd = self.solve_forces(dimensional=False)[aircraft_name]["total"]["CL"]
 
             # Determine update
@@ -3992,7 +3993,7 @@ class Scene:
             alpha += (CL_target-CL)/CLa*relax
 
             # Determine new residuals
-            airplane_object.set_aerodynamic_state(alpha=alpha)
+            airplane_object.set_aerodynamic_state(alpha=alpha, v_wind=v_wind)
             CL = self.solve_forces(dimensional=False)[aircraft_name]["total"]["CL"]
             res = abs(CL-CL_target)
 
@@ -4006,11 +4007,11 @@ class Scene:
         # If the user wants, set the state to the new trim state
         set_state = kwargs.get("set_state", True)
         if set_state:
-            airplane_object.set_aerodynamic_state(alpha=alpha)
+            airplane_object.set_aerodynamic_state(alpha=alpha, v_wind=v_wind)
             self.set_aircraft_control_state(control_state=controls, aircraft=aircraft_name)
 
         else: # Return to the original state
-            airplane_object.set_aerodynamic_state(alpha=alpha_original)
+            airplane_object.set_aerodynamic_state(alpha=alpha_original, v_wind=v_wind)
             self.set_aircraft_control_state(controls_original, aircraft=aircraft_name)
 
         # Output results to file
